@@ -99,7 +99,7 @@ def run(F, res, tier):
     res.analysed.update({"entry_points": len(ents), "reachable_functions": len(seen)})
     res.floor("functions reachable from the queries", len(seen), 800)
     from lib.inventory import Inventory
-    INV = Inventory(F, reviewed, "Q1/")
+    INV = Inventory(F, reviewed, "Q1/", discharged=lambda f_, b_, k_, dt_, df_: c15.discharge(F, f_, b_, k_, dt_, df_) or (in_parser(f_.path) and __import__("rules.c02", fromlist=["x"]).budget_discharge(F, f_, b_, k_, dt_, df_)))
     PR = pcache.results(F)
     parser_ok = not PR["panic_sites"] and not PR["unknown_calls"]
     # the progress guard in Parser::nth is a known finding for deep nesting only (C02/P5b): a loop that can go round without
@@ -121,6 +121,9 @@ def run(F, res, tier):
             full = "%s/%s" % (p, key)
             desc = "the %s (%s) at this site cannot fire in any query on any workspace" % (kind, detail)
             why = c15.discharge(F, f, b, kind, detail, defs)
+            if why is None and in_parser(p):
+                from rules import c02 as _c02b
+                why = _c02b.budget_discharge(F, f, b, kind, detail, defs)
             if why is None and in_parser(p) and p in PR["functions"] + ["syntax::parser::Parser::bump", "syntax::parser::Parser::nth"] and parser_ok \
                     and kind == "explicit" and detail == "assert!":
                 why = "parser precondition: decided unreachable for every token sequence by engine P (C02/P1)"
